@@ -15,6 +15,8 @@ func init() {
 				"screw.go", "teardrop.go", "ramp.go", "clamp.go", "gear.go", "height_map.go", "line_join.go", "radial_curve.go", "rect_set.go", "slice.go")
 			c.runUnits("UNIT", pkgs, ff)
 			c.floor("UNIT", 100)
+			c.runArgSwap("ARGSWAP", pkgs, nil, func(a, b string) bool { return a == "min" && b == "max" || a == "max" && b == "min" })
+			c.floor("ARGSWAP", 40)
 			c.runAbsorption("ABSORB", append(c.libPkgs()[:3:3], c.fixturePkg("g")), nil)
 			c.floor("ABSORB", 100)
 			c.runBoundDirection("BOUNDDIR", c.libPkgs()[:3], nil)
